@@ -10,7 +10,9 @@
   Props/C19IeeeFinal.lean (no overflow of the natural lengths: `linear_curve_position_err_float32` = the recorded full statement;
   `position_lipschitz_float32_uncond`: no non-degeneracy hypothesis) and
   Props/C19DecodedLinearLen.lean (linear sliders WITH a requested length: `linear_curve_len_shape`,
-  `linear_curve_len_position_err_float32_partial`, witness `linear_len_length_mismatch`). All in namespace Rosu.C19.
+  `linear_curve_len_position_err_float32_partial`, witness `linear_len_length_mismatch`) and
+  Props/C19DecodedLinearLen2.lean (`cutPoint_lenAdjOk_of_c16`, `linear_curve_len_position_err_float32_of_c16`: `hcut` replaced by
+  the side conditions of the C16 end-point theorems + finiteness of the cut point). All in namespace Rosu.C19.
 -/
 import RosuModel.Props.C19Curve
 import RosuModel.Props.C19Ieee
@@ -23,3 +25,4 @@ import RosuModel.Props.C19IeeeLipschitz
 import RosuModel.Props.C19DecodedLinear
 import RosuModel.Props.C19IeeeFinal
 import RosuModel.Props.C19DecodedLinearLen
+import RosuModel.Props.C19DecodedLinearLen2
